@@ -382,6 +382,23 @@ pub fn rebuild_from_scan(db: &Db, table: &str) -> Option<Obs> {
     Some(o)
 }
 
+/// names of the UNIQUE user-defined indexes of a table in which some NULL-free key is held by
+/// more than one row (name -> has duplicate)
+pub fn unique_index_dups(db: &Db, table: &str) -> BTreeMap<String, bool> {
+    let mut m = BTreeMap::new();
+    for name in db.db.list_indexes() {
+        let Some(meta) = db.db.get_index(&name) else { continue };
+        if !meta.unique || meta.table_name.to_uppercase() != table.to_uppercase() {
+            continue;
+        }
+        if let Some(IndexData::InMemory { data }) = db.db.get_index_data(&name) {
+            let dup = data.iter().any(|(k, ps)| ps.len() > 1 && !k.iter().any(|v| matches!(v, SqlValue::Null)));
+            m.insert(name.to_uppercase(), dup);
+        }
+    }
+    m
+}
+
 pub fn scan_vals(db: &Db, table: &str) -> Vec<VRow> {
     db.scan(table).unwrap_or_default().iter().map(|r| r.iter().map(Val::of).collect()).collect()
 }
@@ -738,7 +755,9 @@ fn gen_index(r: &mut Rng, st: &mut GenState, s: &Schema) -> Stmt {
             cols.push(c2);
         }
     }
-    Stmt::CreateIndex(name, cols, false)
+    // a UNIQUE user-defined index now and then (the engine may refuse it over existing duplicates)
+    let unique = r.chance(1, 5);
+    Stmt::CreateIndex(name, cols, unique)
 }
 
 pub fn gen_case(r: &mut Rng, cfg: &GenCfg) -> Case {
@@ -886,6 +905,7 @@ pub fn run_case_opts(c: &Case, model: &mut model::Model, rep: &mut Report, label
     let mut any_index = !sg.is_empty();
     let case_id = format!("{}|{}", c.schema.create_sql(), c.stmts.iter().map(|s| s.sql()).collect::<Vec<_>>().join(";"));
     let mut oracle_failed = false;
+    let mut unique_clean: BTreeMap<String, bool> = BTreeMap::new();
     for (k, st) in c.stmts.iter().enumerate() {
         let pre = scan_vals(&db, TABLE);
         let out = db.exec(&st.sql());
@@ -933,6 +953,26 @@ pub fn run_case_opts(c: &Case, model: &mut model::Model, rep: &mut Report, label
                 &format!("{}-- after the last statement ({}):\n-- accessors:\n{}\n-- rebuild from scan():\n{}", script(c, k + 1), out.brief(), obs.text(), rb.text()),
             );
             oracle_failed = true;
+            break;
+        }
+        // ---- direct oracle (T3): a statement never enters a second row under a key a UNIQUE
+        // user-defined index already holds (the uniqueness check consults the index and must see
+        // exactly the keys of the current rows) ----
+        let dups = unique_index_dups(&db, TABLE);
+        for (name, dup) in &dups {
+            let was_clean = unique_clean.get(name).copied();
+            if was_clean == Some(true) && *dup && !matches!(st, Stmt::Rollback | Stmt::RollbackTo(_)) {
+                rep.fail(
+                    FailKind::Oracle,
+                    None,
+                    &format!("{} entered a duplicate key into a UNIQUE user-defined index", st.kind()),
+                    &format!("{}-- index {} now holds a key with several rows:\n{}", script(c, k + 1), name, obs.text()),
+                );
+                oracle_failed = true;
+            }
+        }
+        unique_clean = dups.into_iter().map(|(n, d)| (n, !d)).collect();
+        if oracle_failed {
             break;
         }
         if tracking {
